@@ -47,9 +47,13 @@ pub struct Cfg {
 const LEVEL_PM: [u32; 4] = [0, 10, 100, 400];
 
 pub fn draw(ch: &mut Chooser, prof: &Profile) -> Cfg {
+    ch.mark();
     let n_nodes = 2 + ch.choose(4) as usize;
     let mut nodes: Vec<NodeCfg> = Vec::with_capacity(n_nodes);
-    for i in 0..n_nodes {
+    // always five configuration blocks (the first n_nodes are used), so that the block
+    // structure of a run does not depend on the node count
+    for i in 0..5 {
+        ch.mark();
         // unique 7-bit address; edges 0x00, 0x7F and >= 0x40 are reachable
         let mut addr = match ch.choose(4) {
             0 => 0x10 + i as u8,
@@ -107,6 +111,9 @@ pub fn draw(ch: &mut Chooser, prof: &Profile) -> Cfg {
         } else {
             None
         };
+        if i >= n_nodes {
+            continue;
+        }
         nodes.push(NodeCfg {
             addr,
             types,
@@ -121,6 +128,7 @@ pub fn draw(ch: &mut Chooser, prof: &Profile) -> Cfg {
             boot_uuid,
         });
     }
+    ch.mark();
     let byte_us = if ch.choose(2) == 0 { 90 } else { 23 };
     // fault-free (index 0, benign) or faulty
     let fault_free = ch.weighted(&[prof.fault_free_w, prof.faulty_w]) == 0;
